@@ -72,7 +72,7 @@ def C05 : List (String × String) := [
 def C06 : List (String × String) := [
   ("include/yaclib/async/shared_future.hpp", "90cbb11fa77583edc49f"),
   ("include/yaclib/async/shared_promise.hpp", "e981223351dfea4ac4b0"),
-  ("include/yaclib/async/shared_contract.hpp", "c913136334b08d693ea3"),
+  ("include/yaclib/async/shared_contract.hpp", "1156b89f593ecdb40412"),
   ("include/yaclib/algo/detail/shared_core.hpp", "6741ebf12d26d3a5e6ed"),
   ("include/yaclib/algo/detail/result_core.hpp", "faa60f28da4fd1e231b3"),
   ("src/algo/base_core.cpp", "6e716eaf9126fd64aa99"),
